@@ -810,7 +810,12 @@ static void add_preempt_shots(Builder &b, int max_shots) {
 		// a single step costs ~30 us in this VM, so the instruction budget stays small and depth comes from the scheduling
 		// points inside the call (per Argon2 block, per dataset item, per interpreter iteration, per allocation request)
 		o.preempt = 1 + (uint32_t)r.below((uint64_t)1 << r.range(2, 10));
-		if (r.chance(3, 4)) {
+		if (o.kind == INIT_DATASET && o.count > 0 && o.count < 3000 && r.chance(1, 3)) {
+			// epilogue shot: the interpreted initialiser passes one scheduling point per item, so the last one is known; a few
+			// instructions after it the call is in whatever it does once the items are written (bookkeeping, counters)
+			o.preempt_at = (uint32_t)o.count - (r.chance(1, 4) ? 1 : 0);
+			o.preempt = 1 + (uint32_t)r.below(96);
+		} else if (r.chance(3, 4)) {
 			uint32_t lim = o.kind == INIT_CACHE ? 1200 : (o.kind == HASH || o.kind == FIRST || o.kind == NEXT || o.kind == LAST) ? 600 : o.kind == INIT_DATASET ? (uint32_t)std::min<uint64_t>(o.count + 2, 400) : 8;
 			o.preempt_at = 1 + (uint32_t)r.below((uint64_t)1 << r.range(0, 11)) % lim;
 		}
